@@ -2,6 +2,8 @@ import PhyVerif.Model.C16
 import PhyVerif.Spec.C16
 import PhyVerif.Lemmas.C16
 import PhyVerif.Lemmas.C16b
+import PhyVerif.Model.C16c
+import PhyVerif.Lemmas.C16c
 /-!
 # C16 — chunkings tile the sample axis exactly once
 
@@ -76,6 +78,65 @@ theorem read_by_chunks_eq_concat {α : Type} (parts : List (List α)) (cs : Nat)
     readByChunks parts cs = some parts.flatten :=
   Lemmas.read_by_chunks_eq_concat parts cs hcs
 
+/-! ### chunk bounds for data of any type; the chunk LENGTH; the compressed reader's table (`Model/C16c.lean`) -/
+
+/-- The other two `chunk_bounds` clauses for data of ANY type (`chunkBounds_tileOK` states them on index
+intervals of `range n`): for every chunk, `data_chunk(data, c)` — the kept part — is literally the piece
+`[keep_start - s_start : keep_end - s_start]` of `data_chunk(data, c, with_overlap=True)` — the chunk's data —,
+and the chunk's data is at most `chunk_size` long. -/
+theorem chunkBounds_parts_ok {α : Type} (data : List α) (cs ov : Int)
+    (hcs : 0 < cs) (hov0 : 0 ≤ ov) (hov : ov < cs) :
+    ∀ c ∈ chunkBounds (data.length : Int) cs ov,
+      pySlice data c.ks c.ke = pySlice (chunkData data c) (c.ks - c.s) (c.ke - c.s) ∧
+      ((chunkData data c).length : Int) ≤ cs :=
+  fun c hc => Lemmas.chunk_inside data cs hcs c
+    (Lemmas.chunkBounds_good _ cs ov (Int.natCast_nonneg _) hcs hov0 hov c hc)
+
+/-- The chunk length of flat / in-memory / npy readers, `int(round(600.0 * sample_rate))` with Python's
+`round` on the exact value of the float product: within half a sample of 600 s worth of samples, … -/
+theorem chunkSize_close (rate : Rat) :
+    600 * rate - 1/2 ≤ (chunkSize rate : Rat) ∧ (chunkSize rate : Rat) ≤ 600 * rate + 1/2 :=
+  Lemmas.chunkSize_bounds rate
+
+/-- … THE integer strictly closer than half a sample when there is one, … -/
+theorem chunkSize_nearest (rate : Rat) (m : Int) (h1 : 600 * rate - 1/2 < m)
+    (h2 : (m : Rat) < 600 * rate + 1/2) : chunkSize rate = m :=
+  Lemmas.chunkSize_unique rate m h1 h2
+
+/-- … and the EVEN neighbour when 600 s is exactly half-way between two sample counts. -/
+theorem chunkSize_tie_even (rate : Rat) (k : Int) (h : 600 * rate = k + 1/2) :
+    chunkSize rate % 2 = 0 ∧ (chunkSize rate = k ∨ chunkSize rate = k + 1) :=
+  Lemmas.chunkSize_tie rate k h
+
+/-- The reader clause with the chunk length tied to the sample rate: for every rate above 1/1200 Hz and any
+number of files the constructor's bounds exist, start at 0, end at the sample count, increase strictly, contain
+every file boundary, and are never further apart than `int(round(600·rate))`.  At and below 1/1200 Hz the
+real constructors raise `AssertionError` (`assert chunk_size > 0`, traces.py:144; checked: 1/1200 → 0 by the
+tie rule) — `readerChunkBounds_rejects`. -/
+theorem readerChunkBounds_ok (sizes : List Nat) (rate : Rat) (hne : sizes ≠ []) (hr : 1/1200 < rate) :
+    ∃ cb, readerChunkBounds sizes rate = some cb ∧ boundsOK sizes (chunkSize rate).toNat cb = true :=
+  Lemmas.readerChunkBounds_ok sizes rate hne hr
+
+theorem readerChunkBounds_rejects (sizes : List Nat) (rate : Rat) (hr : rate ≤ 1/1200) :
+    readerChunkBounds sizes rate = none :=
+  Lemmas.readerChunkBounds_none sizes rate hr
+
+/-- Compressed reader (its `chunk_bounds` ARE the table stored in the `.ch` file, traces.py:371): the table
+mtscomp writes for `n ≥ 1` samples and chunk length `cs ≥ 1` (`range(0, n, cs)` plus `n`) is the bound list
+`_get_chunk_bounds` builds for one array of `n` rows, hence satisfies the reader clause with chunk length `cs`:
+from 0 to `n`, strictly increasing, never further apart than `cs`.  (For `n = 0` mtscomp raises.)  For an
+arbitrary table the clause is the decidable predicate `boundsOK [n] cs table`, evaluated on the real table by
+the correspondence run. -/
+theorem cbin_table_ok (n cs : Nat) (hn : 1 ≤ n) (hcs : 0 < cs) :
+    mtsTable n cs = some (getChunkBounds [n] cs) ∧ boundsOK [n] cs (getChunkBounds [n] cs) = true :=
+  ⟨Lemmas.mtsTable_eq n cs hn hcs, getChunkBounds_ok [n] cs hcs (by simp)⟩
+
+/-- … and the compressed reader's batch iterator, over any chunk table whose bounds are at most `cs` apart
+(more than one bound), never hands out an interval longer than `batch_size` chunk lengths. -/
+theorem iterChunksMts_len_le (bs cs : Nat) (hbs : 0 < bs) (cb : List Nat) (hg : gapsLe cs cb = true)
+    (hlen : 2 ≤ cb.length) : ∀ p ∈ iterChunksMts bs cb, p.2 - p.1 ≤ bs * cs :=
+  Lemmas.iterChunksMts_len_le bs cs hbs cb hg hlen
+
 /-! Non-vacuity: concrete non-trivial inputs meet the hypotheses and exercise several chunks. -/
 example : chunkBounds 20 7 2 = [⟨0,7,0,6⟩, ⟨5,12,6,11⟩, ⟨10,17,11,16⟩, ⟨15,20,16,20⟩] := by decide
 example : kept [10,11,12,13,14,15,16] (chunkBounds 7 3 1) = [10,11,12,13,14,15,16] := by decide
@@ -83,5 +144,15 @@ example : getChunkBounds [3,5,2] 2 = [0,2,3,5,7,8,10] := by decide
 example : iterChunksMts 2 [0,3,6,9,10] = [(0,3),(3,9),(9,10)] := by decide
 example : readByChunks [[1,2,3],[4,5,6,7,8],[9,10]] 2 = some [1,2,3,4,5,6,7,8,9,10] := by decide
 example : excerpts 20 3 4 = [(0,4),(8,12),(16,20)] := by decide
+example : chunkSize (1/16) = 38 ∧ chunkSize (3/16) = 112 ∧ chunkSize (7/200) = 21 ∧ chunkSize (1/1200) = 0 := by
+  decide +kernel
+example : (600 : Rat) * (1/16) = (37 : Int) + 1/2 := by decide +kernel
+example : readerChunkBounds [30, 55, 41] (1/16) = some [0, 30, 68, 85, 123, 126] := by decide +kernel
+example : mtsTable 10 4 = some [0, 4, 8, 10] ∧ mtsTable 8 4 = some [0, 4, 8] ∧ mtsTable 0 4 = none := by decide
+example : gapsLe 3 [0,3,6,9,10] = true ∧
+    ((iterChunksMts 2 [0,3,6,9,10]).all fun p => decide (p.2 - p.1 ≤ 2 * 3)) = true := by decide
+example : mtsChunkSize (1/4) 10 = 2 ∧ mtsChunkSize (5/2) 1 = 2 := by decide +kernel
+example : (chunkBounds 7 3 1).map (fun c => (pySlice [10,11,12,13,14,15,16] c.ks c.ke, chunkData [10,11,12,13,14,15,16] c)) =
+    [([10,11,12], [10,11,12]), ([13,14], [12,13,14]), ([15,16], [14,15,16])] := by decide
 
 end PhyVerif.C16
